@@ -155,7 +155,7 @@ def build_probe(kind, logfile, ctl=None, name="probe", by_value=False, hidden=No
     return probe.Probe(kind, logfile=logfile, ctl=ctl, name=name, hidden=hidden)
 
 
-def sow(crop, w, shuffle_at_sow=None, spelling="dict", verbosity=0, **kw):
+def sow(crop, w, shuffle_at_sow=None, spelling="dict", verbosity=0, names_from_farmer=False, **kw):
     """Sow the workload `w` on `crop` through the appropriate entry point."""
     combos = [(a, list(v)) for a, v in w["combos"]]
     consts = dict(w["constants"]) or None
@@ -171,8 +171,13 @@ def sow(crop, w, shuffle_at_sow=None, spelling="dict", verbosity=0, **kw):
         names = w["names"]
         if w.get("case_spelling", "dict") == "tuple":
             fn_args, cs = tuple(names), [tuple(c[a] for a in names) for c in w["cases"]]
+            if len(names) == 1 and len(w["cases"]) % 2 == 0:
+                # one argument: its name as a bare string and the cases as bare values (documented: "iterable[str] or str")
+                fn_args, cs = names[0], [c[names[0]] for c in w["cases"]]
         else:
             fn_args, cs = None, [dict(c) for c in w["cases"]]
+        if names_from_farmer and isinstance(fn_args, tuple):
+            fn_args = None      # positional cases named by the fn_args the crop's Runner was built with
         crop.sow_cases(fn_args, cs, combos=gens.spell_combos(combos, spelling) if combos else None,
                        constants=consts, verbosity=verbosity, **kw)
 
